@@ -27,7 +27,7 @@ from ..engine import rec as _rec, emit as _emit, checked  # noqa: E402
 # ------------------------------------------------------------------ search loop
 
 
-@rule("SEARCH-COVER", ["C01", "C02", "C08", "C12"], floor=8)
+@rule("SEARCH-COVER", ["C01", "C02", "C08", "C12", "C13", "C20"], floor=8)
 def search_cover(ctx):
     """ReMatcher::matches: each of the three scan loops tries match_at at every position of an ascending
     Range that starts at the given start and ends at len+1 (no shortcut), len+1-prefix.len() (prefix) or len
@@ -199,6 +199,8 @@ def match_at(ctx):
             _rec(d, "end-0", any(c[0] == "set_paren_end" and c[1][1] == "0" and c[1][2].endswith(" as Some.0") for c in after) and r == "true", "a result must set the end of group 0 to that result and answer true", loc)
         elif some:
             _rec(d, "no-result", r == "false", "no result must answer false", loc)
+    if "backref-alloc" not in d:
+        _rec(d, "backref-alloc", False, "match_at has no path guarded by the has-back-references flag that re-allocates start_backref/end_backref: the arrays must be fresh for every attempted start position", b.loc(0))
     return _emit(d)
 
 
@@ -659,11 +661,13 @@ def order_reluctant(ctx):
 
 @rule("REPEAT-ITER", ["C06", "C01", "C02", "C20"], floor=8)
 def repeat_iter(ctx):
-    """Repeat::matches_iter: every non-empty result is wrapped in ForceProgressIterator; the zero-iteration
-    alternative is offered iff min == 0 and the position is not a duplicate zero-length match; the priming loop is
-    bounded by min(max, remaining+1); greedy results come from the top of the position stack. ForceProgressIterator
-    gives up after more than 3 repeats of one position. ReluctantRepeatIterator changes counter or position on
-    every turn of its loop."""
+    """Repeat::matches_iter: the priming loop and the iterator stack are bounded by min(max, remaining+1) (the
+    bound that makes the greedy repeat finite whatever its body matches); a greedy repeat is driven by
+    GreedyRepeatIterator(matcher, child, ..., bound, min), a reluctant one by ReluctantRepeatIterator(matcher, child,
+    position, min, max); the zero-iteration alternative (once(position), first on the stack) exists iff min == 0;
+    greedy results come from the top of the position stack, exhaustion only with an empty stack, pops only after
+    the top iterator is exhausted.  (The pruning devices wrapped around these iterators are the subject of
+    CUT-FORCE-PROGRESS and CUT-HISTORY.)"""
     d = {}
     M = "<op_repeat::Repeat as %s>::matches_iter" % OC
     b = ctx.body(M)
@@ -678,82 +682,23 @@ def repeat_iter(ctx):
         loc = b.loc(p.blocks[-1])
         if r == "empty()":
             continue
-        _rec(d, "force-progress-wrapper", r.startswith("ForceProgressIterator::new("), "every non-empty iterator returned by Repeat::matches_iter must be a ForceProgressIterator; found %s" % r[:80], loc)
+        inner = r[len("ForceProgressIterator::new("):-1] if r.startswith("ForceProgressIterator::new(") and r.endswith(")") else r
         greedy = "a1.greedy" in gs
+        cs = _calls(p)
         if greedy:
-            _rec(d, "greedy-iterator", r.startswith("ForceProgressIterator::new(GreedyRepeatIterator::new(a2, a1.operation, "), "greedy repeat must be driven by GreedyRepeatIterator(matcher, child, ...)", loc)
-            m = re.search(r", (Ord::min\([^)]*\([^)]*\)[^)]*\)|[^,]*), a1\.min\)\)$", r)
-            _rec(d, "greedy-bound", "Ord::min(a1.max, satsub(add(1, len(a2.search)), a3)), a1.min))" in r, "the iterator stack must be bounded by min(max, remaining input + 1) and carry min; found %s" % r[-120:], loc)
+            _rec(d, "greedy-iterator", inner.startswith("GreedyRepeatIterator::new(a2, a1.operation, "), "greedy repeat must be driven by GreedyRepeatIterator(matcher, child, ...); found %s" % r[:80], loc)
+            _rec(d, "greedy-bound", inner.endswith("Ord::min(a1.max, satsub(add(1, len(a2.search)), a3)), a1.min)"), "the iterator stack must be bounded by min(max, remaining input + 1) and carry min; found %s" % r[-120:], loc)
+            rng = [g for g in gs if g.startswith("variant(next(Range::Range{")]
+            _rec(d, "priming-bounded", all(g.startswith("variant(next(Range::Range{start: 0, end: Ord::min(a1.max, satsub(add(1, len(a2.search)), a3))}))") for g in rng), "the priming loop must run at most min(max, remaining input + 1) times", loc)
         elif "!a1.greedy" in gs:
-            _rec(d, "reluctant-iterator", r == "ForceProgressIterator::new(ReluctantRepeatIterator::new(a2, a1.operation, a3, a1.min, a1.max))", "reluctant repeat must be driven by ReluctantRepeatIterator(matcher, child, position, min, max); found %s" % r[:140], loc)
+            _rec(d, "reluctant-iterator", inner == "ReluctantRepeatIterator::new(a2, a1.operation, a3, a1.min, a1.max)", "reluctant repeat must be driven by ReluctantRepeatIterator(matcher, child, position, min, max); found %s" % r[:120], loc)
         z = [g for g in gs if "is_duplicate_zero_length_match" in g]
-        if greedy and "eq(0, a1.min)" in gs:
-            _rec(d, "zero-iteration-guarded", bool(z) and z[0].lstrip("!") == "is_duplicate_zero_length_match(a2, a1, a3)", "with min == 0 the zero-iteration alternative must consult the duplicate-zero-length memo for (this repeat, position)", loc)
+        once = [i for i, c in enumerate(cs) if c[0] == "Vec::push" and c[1][1:] == ["once(a3)"]]
+        pushes = [i for i, c in enumerate(cs) if c[0] == "Vec::push" and c[1][:1] == [cs[once[0]][1][0]]] if once else []
+        if greedy and "eq(0, a1.min)" in gs and not (z and not z[0].startswith("!")):
+            _rec(d, "zero-iteration-offered", len(once) == 1 and pushes[0] == once[0], "with min == 0 the zero-iteration alternative once(position) must be the first (least preferred) entry of the iterator stack; pushes %s" % [c[1][1:] for c in cs if c[0] == "Vec::push"][:3], loc)
         if greedy and "!eq(0, a1.min)" in gs:
-            _rec(d, "no-zero-iteration", not z and "once(a3)" not in r, "with min > 0 there is no zero-iteration alternative", loc)
-    F = "<operation::ForceProgressIterator as std::iter::Iterator>::next"
-    fb = ctx.body(F)
-    if fb is None:
-        d["ForceProgress|missing"] = [False, "ForceProgressIterator::next missing", None]
-    else:
-        PV = "try(next(a1.base)) as Continue.0"
-        P_ = "Option::Some{0: %s}" % PV
-        for p in ctx.walk(fb).paths:
-            gs, r = summarize(p)
-            gs = [strip_ver(g) for g in gs]
-            r = strip_ver(r)
-            loc = fb.loc(p.blocks[-1])
-            st = dict((strip_ver(show(e[1])), strip_ver(render(e[2]))) for e in p.effects if e[0] == "store")
-            thr = [g for g in gs if re.match(r"^!?lt\(\d+, a1\.count_zero_length\)$", g)]
-            if not thr:
-                _rec(d, "fp|threshold", False, "ForceProgressIterator must first compare count_zero_length with its threshold", loc)
-                continue
-            k = int(re.match(r"^!?lt\((\d+),", thr[0]).group(1))
-            _rec(d, "fp|threshold-small", k <= 16, "the stagnation threshold grew to %d" % k, loc)
-            if not thr[0].startswith("!"):
-                _rec(d, "fp|gives-up", r == "Option::None" and not [c for c in _calls(p) if c[0] == "next"], "beyond the threshold next() must answer None without consulting the base iterator", loc)
-                continue
-            if any(g.endswith("=Break") for g in gs):
-                _rec(d, "fp|base-exhausted", r.startswith("propagate("), "base exhaustion is exhaustion", loc)
-                continue
-            # is the new position the remembered one?  (either `Some(p) == current_pos` or a match on current_pos)
-            same = None
-            if ("eq(%s, a1.current_pos)" % P_) in gs or ("eq(a1.current_pos, %s)" % P_) in gs:
-                same = True
-            elif ("!eq(%s, a1.current_pos)" % P_) in gs or ("!eq(a1.current_pos, %s)" % P_) in gs:
-                same = False
-            elif "variant(a1.current_pos)=None" in gs:
-                same = False
-            elif "variant(a1.current_pos)=Some" in gs:
-                if ("eq(%s, a1.current_pos as Some.0)" % PV) in gs or ("eq(a1.current_pos as Some.0, %s)" % PV) in gs:
-                    same = True
-                elif ("!eq(%s, a1.current_pos as Some.0)" % PV) in gs or ("!eq(a1.current_pos as Some.0, %s)" % PV) in gs:
-                    same = False
-            if same is None:
-                _rec(d, "fp|position-compared", False, "ForceProgressIterator yields a position without comparing it with the remembered one (guards %s)" % gs[-2:], loc)
-                continue
-            yields = r in (P_,)
-            if same:
-                _rec(d, "fp|same-position-counts", yields and st.get("a1.count_zero_length") == "add(1, a1.count_zero_length)" and st.get("a1.current_pos") in (None, P_), "a repeat of the same position must increase the counter (and yield it); stores %s" % st, loc)
-            else:
-                _rec(d, "fp|new-position-resets", yields and st.get("a1.count_zero_length") in ("0", None) and st.get("a1.current_pos") == P_ and (st.get("a1.count_zero_length") == "0" or "variant(a1.current_pos)=None" in gs), "a new position must reset the counter and be remembered as the current position (otherwise only repeats of the first position are ever counted); stores %s" % st, loc)
-        for k_ in ("fp|gives-up", "fp|same-position-counts", "fp|new-position-resets"):
-            if k_ not in d:
-                d[k_] = [False, "ForceProgressIterator::next lost its %s path" % k_, fb.loc()]
-    H = "history::History::is_duplicate_zero_length_match"
-    hb = ctx.body(H)
-    if hb is None:
-        d["History|missing"] = [False, "History::is_duplicate_zero_length_match missing", None]
-    else:
-        for p in checked(d, "history", hb, ctx.walk(hb).paths):
-            gs, r = summarize(p)
-            r = strip_ver(r)
-            loc = hb.loc(p.blocks[-1])
-            if any(g.endswith("=Some") for g in gs):
-                _rec(d, "history|known-node", r.startswith("!HashSet::insert(") and r.endswith(", a3)"), "for a known repeat node the answer is !positions.insert(position); found %s" % r[:80], loc)
-            else:
-                ins = [c for c in _calls(p) if c[0] == "HashSet::insert" or c[0] == "HashMap::insert"]
-                _rec(d, "history|new-node", r == "false" and len(ins) == 2, "for a new repeat node the position is recorded and the answer is false", loc)
+            _rec(d, "no-zero-iteration", not z and not once, "with min > 0 there is no zero-iteration alternative", loc)
     G = "<op_repeat::GreedyRepeatIterator as std::iter::Iterator>::next"
     gb = ctx.body(G)
     if gb is None:
